@@ -141,7 +141,7 @@ func jm(k string, v ...interface{}) map[string]interface{} { return map[string]i
 func jo(k string, v interface{}) map[string]interface{}    { return map[string]interface{}{k: v} }
 
 func C18(rep *ev.Reporter, tier string) {
-	bud := NewBudget(55 * time.Second)
+	bud := NewBudget(150 * time.Second)
 	if tier == "thorough" {
 		bud = NewBudget(9 * time.Minute)
 	}
